@@ -11,6 +11,7 @@ import itertools
 from dataclasses import dataclass, field
 from typing import Any, Callable, Dict, List, Optional, Sequence, Tuple
 
+import os
 import z3
 
 Obj = z3.DeclareSort("Obj")
@@ -374,6 +375,63 @@ def validity_value(t, path: "Path") -> V:
 
 
 # ---------------------------------------------------------------------------
+ROW_SIMPLIFY = os.environ.get("PYVC_ROW", "1") == "1"
+FRESH_OBJS: Dict[int, Any] = {}          # ast id -> constant (kept alive)
+_MENTIONS: Dict[int, Tuple[Any, bool]] = {}
+
+
+def register_fresh(o) -> None:
+    FRESH_OBJS[o.get_id()] = o
+
+
+OLD_ROOTS: Dict[int, Any] = {}           # arguments of the scenario, global roots
+
+
+def register_old(o) -> None:
+    OLD_ROOTS[o.get_id()] = o
+
+
+def mentions_fresh(t) -> bool:
+    """is the term NOT certainly a term over the pre-state?  A pre-state term
+    is built from the scenario's argument objects, the global roots, pre-state
+    heap arrays (H!...), numbers and strings; anything else (freshly allocated
+    objects, stores, ghost constants, which are universally quantified and may
+    denote a new object) counts as possibly new."""
+    i = t.get_id()
+    hit = _MENTIONS.get(i)
+    if hit is not None:
+        return hit[1]
+    if i in FRESH_OBJS or z3.is_store(t):
+        r = True
+    elif z3.is_const(t) and t.decl().kind() == z3.Z3_OP_UNINTERPRETED:
+        if i in OLD_ROOTS:
+            r = False
+        elif z3.is_array(t):
+            r = not t.decl().name().startswith("H!")
+        elif t.sort().kind() in (z3.Z3_INT_SORT, z3.Z3_REAL_SORT,
+                                 z3.Z3_BOOL_SORT) or z3.is_string(t):
+            r = False
+        else:
+            r = True
+    elif z3.is_app(t):
+        r = any(mentions_fresh(c) for c in t.children())
+    else:
+        r = True
+    _MENTIONS[i] = (t, r)
+    return r
+
+
+def certainly_distinct(a, b) -> bool:
+    fa, fb = a.get_id() in FRESH_OBJS, b.get_id() in FRESH_OBJS
+    if fa and fb:
+        return not a.eq(b)
+    if fa:
+        return not mentions_fresh(b)
+    if fb:
+        return not mentions_fresh(a)
+    return False
+
+
 class Heap:
     """field name -> z3 array term.  Arrays are created lazily from the
     schema; `pre` constants are named `H!<field>`."""
@@ -397,7 +455,21 @@ class Heap:
         return a
 
     def get(self, name: str, obj):
-        return z3.Select(self.arr(name), obj)
+        arr = self.arr(name)
+        if ROW_SIMPLIFY:
+            # read over write: skip stores at objects that are certainly other
+            # objects (a freshly allocated object is distinct from every other
+            # freshly allocated object and from every object denoted by a term
+            # over the pre-state: A1, references refer to existing objects)
+            while z3.is_store(arr):
+                base, idx, val = arr.arg(0), arr.arg(1), arr.arg(2)
+                if idx.eq(obj):
+                    return val
+                if certainly_distinct(idx, obj):
+                    arr = base
+                else:
+                    break
+        return z3.Select(arr, obj)
 
     def set(self, name: str, obj, val) -> None:
         self.arrays[name] = z3.Store(self.arr(name), obj, val)
